@@ -44,7 +44,7 @@ TRUSTED = [
     'harness/sched.py + harness/concdrv.py: one traced event per granted step, the step granted before the event executes; events on a fresh '
     'private value file (create/write/close) are treated as commuting with other clients in the systematic enumeration',
     'the Python reference dictionary (harness/props/c05.py RefCache) as the reading of the property text',
-    'overlaps inside the pickling of a key (key_pickling_overlap) are produced with real threads gated by events in the key\'s own pickling hook; they are '
+    'overlaps inside the pickling of a key or of a VALUE (key_pickling_overlap, suspend=value) are produced with real threads gated by events in the pickling hook of a component of the key / value; they are '
     'decided by the monitor only (the machine of Conc.v starts a call at its first SQLite statement)',
 ]
 ASSUMPTIONS = [
@@ -1152,7 +1152,10 @@ RULE = ('programs of 2-4 clients x 1-3 calls from {set, add, incr, decr, get, po
         'shards) / Index, each with its own key that must be pickled (5 shapes around a component whose __reduce__ / __reduce_ex__ / __getstate__ waits '
         'on an event) and reusing its key object; A\'s set / get / delete / pop / add / incr is suspended inside the pickling of its key while B runs 1-3 '
         'complete calls, or both are suspended and released in either order; afterwards each thread\'s calls with its own key object and the contents '
-        'must be those of a dictionary (the keys differ, so every result is determined).  '
+        'must be those of a dictionary (the keys differ, so every result is determined).  The same with VALUES suspended inside their pickling: every '
+        'stored value is a structure (6 shapes, inline-sized and file-backed) around such a component; A\'s set / add / push / Index []= is suspended inside '
+        'the pickling of its value while B stores its own pickled values (set / add / push, 1-3 calls, also get / pop) under its own key / queue, or both '
+        'are suspended and released in either order; afterwards each key (queue) holds the values stored under it.  '
         'non-trivial = calls of at least two clients overlap in time; distinct = distinct (program, setup, executed schedule, mode).')
 
 
@@ -1420,6 +1423,14 @@ KP_MODES = ['b_complete', 'both_ab', 'both_ba']      # B runs complete calls whi
 KP_POSTS = [['get', 'delete', 'get'], ['get', 'pop', 'get'], ['get', 'incr', 'get'], ['delete', 'get'], ['pop', 'get'], ['get', 'set', 'get'],
             ['add', 'get'], ['incr', 'get'], ['get']]
 KP_MISS = '<miss>'
+# values suspended inside THEIR pickling (p['suspend'] == 'value'): the gated component sits inside the value of a storing call
+KV_SHAPES = {'tuple_mid': lambda q, t: (t, q, ['tail', 'of', t]), 'list_first': lambda q, t: [q, t, t], 'dict': lambda q, t: {'part': q, 'text': t},
+             'bare': lambda q, t: q, 'nested': lambda q, t: (1, (t, [q]), 2.5), 'tuple_last': lambda q, t: (t, 7, q)}
+KV_STORES = {'Cache': ['set', 'add', 'push'], 'FanoutCache': ['set', 'add'], 'Index': ['set', 'push']}
+KV_OPS_B = {'Cache': ['set', 'add', 'set', 'get', 'pop'], 'FanoutCache': ['set', 'add', 'set', 'get', 'pop'], 'Index': ['set', 'set', 'get', 'pop']}
+_KPQ = '<queue>'
+# (Deque.append / appendleft pickle the value INSIDE a transact() block, i.e. under the write lock: a second append cannot run meanwhile, so
+# there is nothing to overlap; Deque is not among the containers of this family)
 
 
 class _KWorker:
@@ -1480,6 +1491,10 @@ class KPEnv:
 def kp_call(cont, o, op, k, v):
     """one call through the shared object, result in the vocabulary of kp_ref"""
     try:
+        if op == 'push':
+            return isinstance(o.push(v, prefix=k) if cont == 'Index' else o.push(v, prefix=k, retry=True), str)
+        if op == 'pull':
+            return (o.pull(prefix=k, default=(None, KP_MISS)) if cont == 'Index' else o.pull(prefix=k, default=(None, KP_MISS), retry=True))[1]
         if cont == 'Index':
             if op == 'set':
                 o[k] = v
@@ -1533,6 +1548,12 @@ def kp_ref(d, op, k, v):
     if op == 'incr':
         d[k] = d.get(k, 0) + v
         return d[k]
+    if op == 'push':
+        d.setdefault((_KPQ, k), []).append(v)
+        return True
+    if op == 'pull':
+        q = d.get((_KPQ, k), [])
+        return q.pop(0) if q else KP_MISS
     raise ValueError(op)
 
 
@@ -1550,6 +1571,12 @@ def pickling_overlap_case(env, p):
     cls = KP_GATES[p['gate']]
     part = {'A': cls('a%d' % n), 'B': cls('b%d' % n)}
     key = {'A': KP_SHAPES[p['shape_a']](part['A']), 'B': KP_SHAPES[p['shape_b']](part['B'])}
+    in_value = p.get('suspend') == 'value'
+    vpart = {'A': cls('va%d' % n), 'B': cls('vb%d' % n)}      # the components of the VALUES (value mode: these are the gated ones)
+    gated = vpart if in_value else part
+    if in_value and 'push' in [p['op_a']] + p['ops_b'] + p['post']:
+        key = {'A': 'qa%d' % n, 'B': 'qb%d' % n}               # queue calls: each thread has its own queue (prefix)
+    what = 'value' if in_value else 'key'
     o, cont = env.obj, env.cont
     ref = {}
     seq = [0]
@@ -1560,6 +1587,9 @@ def pickling_overlap_case(env, p):
         seq[0] += 1
         if op == 'incr':
             return 3 + seq[0]
+        if in_value:        # every stored value goes through pickling and carries the thread's own component
+            text = '%s-value-%d-' % (who, seq[0]) + (('a' if who == 'A' else 'b') * 30 if p['values'] != 'int' else '')
+            return KV_SHAPES[p['vshape_a' if who == 'A' else 'vshape_b']](vpart[who], text)
         if p['values'] == 'int':
             return (1000 if who == 'A' else 2000) + seq[0]
         return '%s-value-%d-' % (who, seq[0]) + ('a' if who == 'A' else 'b') * 30        # above the file threshold
@@ -1579,9 +1609,9 @@ def pickling_overlap_case(env, p):
         for i, (op, v) in enumerate(plan):
             want = kp_ref(ref, op, key[who], v)
             got = out[i][2] if i < len(out) else '<not executed>'
-            log.append('%s %s: %s(%r%s) -> %r' % (phase, who, op, key[who], '' if op in ('get', 'delete', 'pop') else ', %r' % (v,), got))
+            log.append('%s %s: %s(%r%s) -> %r' % (phase, who, op, key[who], '' if op in ('get', 'delete', 'pop', 'pull') else ', %r' % (v,), got))
             if not (type(got) is type(want) and got == want) and not problems:
-                problems.append(('shared_object_key_crosstalk:%s:%s' % (cont, op),
+                problems.append(('shared_object_%s_crosstalk:%s:%s' % (what, cont, op),
                                  '%s shared by two threads, keys %r (thread A) and %r (thread B): %s, thread %s: %s with its own key object returned %r, '
                                  'a dictionary gives %r' % (env.container, key['A'], key['B'], phase, who, op, got, want)))
 
@@ -1600,12 +1630,12 @@ def pickling_overlap_case(env, p):
     def arm(who):
         g = [p['nth'], threading.Event(), threading.Event()]
         with KeyPart.guard:
-            KeyPart.armed[part[who].name] = g
+            KeyPart.armed[gated[who].name] = g
         return g
 
     def disarm(who):
         with KeyPart.guard:
-            KeyPart.armed.pop(part[who].name, None)
+            KeyPart.armed.pop(gated[who].name, None)
 
     try:
         if p['preset']:
@@ -1620,7 +1650,7 @@ def pickling_overlap_case(env, p):
             disarm('A')
         if p['mode'] == 'b_complete':
             info['reached'] = reached_a
-            ok = sync('B', p['ops_b'], 'while A is inside pickling')
+            ok = sync('B', p['ops_b'], 'while A is inside the pickling of its %s' % what)
             ga[2].set()
             if not done_a.wait(60):
                 env.broken = True
@@ -1666,8 +1696,13 @@ def pickling_overlap_case(env, p):
                 n_items = len(o)
             except Exception as e:  # noqa
                 keys, n_items = ['<raised %r>' % e], -1
-            if n_items != len(ref) or len(keys) != len(ref) or not all(k in ref for k in keys):
-                problems.append(('shared_object_key_crosstalk:%s:contents' % cont,
+            queued = sum(len(q) for k, q in ref.items() if isinstance(k, tuple) and k[:1] == (_KPQ,))
+            for k in [k for k in ref if isinstance(k, tuple) and k[:1] == (_KPQ,)]:
+                del ref[k]
+            if queued:
+                pass            # (queue items are addressed by generated keys: their contents were compared by the pulls)
+            elif n_items != len(ref) or len(keys) != len(ref) or not all(k in ref for k in keys):
+                problems.append(('shared_object_%s_crosstalk:%s:contents' % (what, cont),
                                  '%s shared by two threads, keys %r and %r: afterwards it holds %d items with keys %r, a dictionary holds %r'
                                  % (env.container, key['A'], key['B'], n_items, keys, list(ref))))
     finally:
@@ -1709,6 +1744,39 @@ def pickling_overlaps(ctx, res, stats, thorough):
                             st['scenarios'] += 1
                             st['suspended_inside_pickling'] += int(bool(info.get('reached')))
                             res.count(['key-pickling-overlap', sorted(p.items())], nontrivial=bool(info.get('reached')))
+                            stats['ops'][op_a] = stats['ops'].get(op_a, 0) + 1
+                            for sig, desc in problems:
+                                if sig not in seen:
+                                    seen.add(sig)
+                                    res.violations.append(fw.Violation(sig, desc + '   [calls: ' + '; '.join(info.get('log', [])[-12:]) + ']', dict(p)))
+                            if env.broken:
+                                env.close()
+                                env = KPEnv(ctx.scratch('c05kp'), container)
+                    if enough(res):
+                        return
+            # VALUES suspended inside their pickling: every storing call x every mode x every hook
+            for rnd in range(rounds):
+                for gate in sorted(KP_GATES):
+                    for mode in KP_MODES:
+                        for op_a in KV_STORES[env.cont]:
+                            queue = op_a == 'push'
+                            nb = 1 if mode != 'b_complete' else rng.choice([1, 2, 3])
+                            ops_b = ['push'] * nb if queue else [rng.choice(KV_STORES[env.cont][:2] if mode != 'b_complete' else KV_OPS_B[env.cont]) for _ in range(nb)]
+                            if not queue and mode == 'b_complete' and not any(x in ('set', 'add') for x in ops_b):
+                                ops_b[0] = 'set'
+                            post = ['pull', 'pull', 'pull', 'pull'] if queue else [x for x in rng.choice(KP_POSTS) if x in ops and x != 'incr']
+                            p = {'check': 'key_pickling_overlap', 'suspend': 'value', 'container': container, 'gate': gate, 'mode': mode, 'op_a': op_a,
+                                 'ops_b': ops_b, 'shape_a': rng.choice(sorted(KP_SHAPES)), 'shape_b': rng.choice(sorted(KP_SHAPES)),
+                                 'vshape_a': rng.choice(sorted(KV_SHAPES)), 'vshape_b': rng.choice(sorted(KV_SHAPES)), 'nth': 1,
+                                 'preset': rng.random() < 0.5, 'post': post or ['get'], 'post_first': rng.choice('AB'),
+                                 'values': 'int' if rng.random() < 0.4 else 'text'}
+                            if queue and p['preset']:
+                                p['preset'] = False         # (the preset is a set under the key; queues start empty)
+                            problems, info = pickling_overlap_case(env, p)
+                            st['scenarios'] += 1
+                            st['value_scenarios'] = st.get('value_scenarios', 0) + 1
+                            st['suspended_inside_value_pickling'] = st.get('suspended_inside_value_pickling', 0) + int(bool(info.get('reached')))
+                            res.count(['value-pickling-overlap', sorted(p.items())], nontrivial=bool(info.get('reached')))
                             stats['ops'][op_a] = stats['ops'].get(op_a, 0) + 1
                             for sig, desc in problems:
                                 if sig not in seen:
